@@ -42,7 +42,7 @@ def run_prop(pid):
         out.append("%s %s detected=%s %s" % (os.path.basename(d), st, m["lead_verification"]["detected"], m["lead_verification"].get("demo_changed")))
     return out
 
-with ThreadPoolExecutor(max_workers=7) as ex:
+with ThreadPoolExecutor(max_workers=10) as ex:
     for res in ex.map(run_prop, sorted(byprop)):
         for l in res:
             print(l)
